@@ -158,6 +158,15 @@ pub enum Outcome<T> {
     Err(String),
     Panic,
 }
+
+impl<T> Outcome<T> {
+    pub fn as_ok(&self) -> Option<&T> {
+        match self {
+            Outcome::Ok(x) => Some(x),
+            _ => None,
+        }
+    }
+}
 pub fn guarded<T, E: std::fmt::Debug>(f: impl FnOnce() -> Result<T, E>) -> Outcome<T> {
     match catch_unwind(AssertUnwindSafe(f)) {
         Ok(Ok(v)) => Outcome::Ok(v),
